@@ -60,7 +60,7 @@ func expectedPairs(in [4]bool) [][2]int {
 // vals holds the value at every node of the finest lattice (from the unpruned render). Squares with a
 // corner value of exactly zero, and segments with an end point within tol of a lattice node, are skipped
 // (which side such a point belongs to is not defined). Returns a description of the first mismatch.
-func pairingCheck(ls []*sdf.Line2, rec *lat.Recorder2, res float64) (bad string, checked int) {
+func pairingCheck(ls []*sdf.Line2, rec *lat.Recorder2, res float64, unscale float64) (bad string, checked int) {
 	tol := 1e-6 * res
 	ax := lat.AxesOf2(rec.Pts, 1e-9*res)
 	// the recorded lattice is in half cells (square centres are sampled for the emptiness test): corners of
@@ -131,9 +131,13 @@ func pairingCheck(ls []*sdf.Line2, rec *lat.Recorder2, res float64) (bad string,
 		sort.Strings(s)
 		return fmt.Sprint(s)
 	}
+	// every finest square of the lattice (all four corners sampled by the unpruned render), not only those
+	// that received segments: a square with a sign change and no segment is a loss
 	keys := make([][2]int, 0, len(got))
-	for k := range got {
-		keys = append(keys, k)
+	for i := 0; i+2 < len(ax.X); i += 2 {
+		for j := 0; j+2 < len(ax.Y); j += 2 {
+			keys = append(keys, [2]int{i, j})
+		}
 	}
 	sort.Slice(keys, func(a, b int) bool {
 		if keys[a][0] != keys[b][0] {
@@ -157,6 +161,20 @@ func pairingCheck(ls []*sdf.Line2, rec *lat.Recorder2, res float64) (bad string,
 		}
 		if zero {
 			continue
+		}
+		if len(got[k]) == 0 {
+			// no segment although the signs change: legitimate when a corner value is so close to the level
+			// that the end points of the segment are snapped onto that corner and the segment has no length
+			// (unscale turns the values of the scaled render back into those of the shape)
+			tiny := false
+			for _, ij := range [][2]int{{i, j}, {i + 2, j}, {i + 2, j + 2}, {i, j + 2}} {
+				if math.Abs(val[ij]*unscale) < math.Max(1e-9*res, 1.001e-12) { // (the snap is absolute: 1e-12)
+					tiny = true
+				}
+			}
+			if tiny {
+				continue
+			}
 		}
 		checked++
 		want := expectedPairs(in)
